@@ -193,3 +193,16 @@ REQUIRED_KEYS_SOFT_OK = {
     ("treeinfo.Header", "version"), ("treeinfo.Tree", "build_timestamp"), ("treeinfo.Tree", "arch"),
     ("treeinfo.Tree", "platforms"),
 }
+
+
+# architecture names the library documents (synced from dnf's _BASEARCH_MAP plus arm64, src, nosrc); a lower bound
+DOC_RPM_ARCHES = (
+    "aarch64", "alpha", "alphaev4", "alphaev45", "alphaev5", "alphaev56", "alphaev6", "alphaev67", "alphaev68",
+    "alphaev7", "alphapca56", "amd64", "arm64", "armhfp", "armv5tejl", "armv5tel", "armv5tl", "armv6hl",
+    "armv6l", "armv7hl", "armv7hnl", "armv7l", "armv8hl", "armv8l", "athlon", "geode", "i386", "i486", "i586",
+    "i686", "ia32e", "ia64", "loongarch64", "mips", "mips64", "mips64el", "mipsel", "ppc", "ppc64",
+    "ppc64iseries", "ppc64le", "ppc64p7", "ppc64pseries", "riscv128", "riscv32", "riscv64", "s390", "s390x",
+    "sh3", "sh4", "sh4a", "sparc", "sparc64", "sparc64v", "sparcv8", "sparcv9", "sparcv9v", "x86_64",
+    "src", "nosrc", "noarch",
+)
+JSON_NATIVE_TYPES = ("str", "int", "float", "bool", "NoneType", "list", "dict", "tuple")
